@@ -165,11 +165,11 @@ Print Assumptions ladder_is_spec.
    `while` loop (right operand parsed by the same callee as the left one), one chain from
    parseTernary's condition callee down to parseUnary; ?: parses both branches with parseTernary;
    assignment is parseTernary [op parseAssignment]; prefix operators recurse into parseUnary, ++/--
-   and the fall-through use parsePostfix; the generic look-ahead gives up at ; ( ) { } = + - && ||;
+   and the fall-through use parsePostfix; the generic look-ahead gives up at ; ( ) { } = + - && || and after scan_bound = 256 tokens;
    `( identifier` is tried as a type only for a type name *)
 Theorem ladder_structure_is_modelled :
   structure_ok ladder_shape ladder_ternary ladder_entry ladder_assign ladder_unary_prefix
-               ladder_unary_calls ladder_generic_stops ladder_cast_guard ladder_table = true.
+               ladder_unary_calls ladder_generic_stops ladder_generic_bound ladder_cast_guard ladder_table = true.
 Proof. exact (eq_refl true). Qed.
 Print Assumptions ladder_structure_is_modelled.
 
